@@ -920,3 +920,40 @@ M("c02-static-solver-keeps-stale-blocks", "C02", "cola/libvpsc/solve_VPSC.cpp",
   mention=["STATIC-SOLVER-FRESH-START"])
 M("c10-junction-limits-at-old-position", "C10", "cola/libavoid/orthogonal.cpp",
   "                Point pos = junction->recommendedPosition();", "                Point pos = junction->position();", mention=["JUNCTION-LIMITS-AT-MEETING-POINT"])
+
+# ---------------------------------------------------------------- round h
+M("c11-new-connend-only-for-new-object", "C11", "cola/libavoid/connector.cpp",
+  "        if (connEnd.isPinConnection())\n        {\n            m_src_connend = new ConnEnd(connEnd);",
+  "        if (connEnd.isPinConnection() && (m_src_connend == nullptr))\n        {\n            m_src_connend = new ConnEnd(connEnd);",
+  mention=["ENDPOINT-TAKES-NEW-CONNEND"])
+M("c11-active-pin-by-position", "C11", "cola/libavoid/connend.cpp",
+  "        if (currPin->m_vertex == pinVert)\n        {\n            usePin(currPin);", "        if (currPin->m_vertex->point == pinVert->point)\n        {\n            usePin(currPin);",
+  mention=["ACTIVE-PIN-BY-VERTEX"])
+M("c11-neutral-pin-by-vertex-swapped", "C11", "cola/libavoid/connend.cpp",
+  "        if (currPin->m_vertex == pinVert)\n        {\n            usePin(currPin);", "        if (pinVert == currPin->m_vertex)\n        {\n            usePin(currPin);", expect="silent")
+M("c19-leaf-bounds-always-width", "C19", "cola/libdialect/trees.cpp",
+  "    double half = Compass::isVertical((CompassDir) growthDir) ? rootDims.first/2.0 : rootDims.second/2.0;", "    double half = rootDims.first/2.0;",
+  mention=["LEAF-TREE-BOUNDS"])
+M("c19-neutral-leaf-bounds-via-member", "C19", "cola/libdialect/trees.cpp",
+  "    double half = Compass::isVertical((CompassDir) growthDir) ? rootDims.first/2.0 : rootDims.second/2.0;",
+  "    double half = Compass::isVertical((CompassDir) m_growthDir) ? rootDims.first/2.0 : rootDims.second/2.0;", expect="silent")
+M("c17-neighbour-counts", "C17", "cola/libcola/colafd.cpp",
+  "        neighbours[s][t] = 1;\n        neighbours[t][s] = 1;", "        neighbours[s][t] += 1;\n        neighbours[t][s] += 1;", mention=["NEIGHBOUR-FLAGS"])
+M("c17-majorization-fixup-on-callers-copy", "C17", "cola/libcola/cola.cpp",
+  "            edgeLengths[i] = 1;", "            eLengths[i] = 1;", mention=["MAJORIZATION-LENGTHS"])
+M("c08-containment-skips-child-clusters-of-empty", "C08", "cola/libcola/cc_clustercontainmentconstraints.cpp",
+  "    for (std::vector<Cluster *>::iterator curr = cluster->clusters.begin();\n            curr != cluster->clusters.end(); ++curr)\n    {\n        Cluster *childCluster = *curr;\n        Box margin = childCluster->margin();",
+  "    for (std::vector<Cluster *>::iterator curr = cluster->clusters.begin();\n            !cluster->nodes.empty() && curr != cluster->clusters.end(); ++curr)\n    {\n        Cluster *childCluster = *curr;\n        Box margin = childCluster->margin();",
+  mention=["CONTAINMENT-COVERS-MEMBERS"])
+M("c08-containment-child-margin-one-sided", "C08", "cola/libcola/cc_clustercontainmentconstraints.cpp",
+  "                padding.max(XDIM) + margin.max(XDIM), BelowBoundary,", "                padding.max(XDIM) + margin.min(XDIM), BelowBoundary,", mention=["CONTAINMENT-COVERS-MEMBERS"])
+M("c15-report-after-lcs-freed", "C15", "cola/libcola/gradient_projection.cpp",
+  "    lcs.clear();\n    delete vpsc;\n", "    lcs.clear();\n    delete vpsc;\n    for(Constraints::iterator i=cs.begin();i!=cs.end();i++) { if((*i)->unsatisfiable) { (*i)->unsatisfiable=false; } }\n",
+  mention=["SOLVER-OBJECTS-READ-BEFORE-FREED"])
+M("c15-bfs-queue-iterator-kept", "C15", "cola/libdialect/graphs.cpp",
+  "            bfs_queue.resize(m+n);\n            std::transform(\n                newEdges.cbegin(), newEdges.cend(), bfs_queue.end() - n,",
+  "            auto oldEnd = bfs_queue.end();\n            bfs_queue.resize(m+n);\n            std::transform(\n                newEdges.cbegin(), newEdges.cend(), oldEnd,",
+  mention=["ITERATOR-NOT-USED-AFTER-GROWTH"])
+M("c15-neutral-bfs-queue-iterator-after-resize", "C15", "cola/libdialect/graphs.cpp",
+  "            bfs_queue.resize(m+n);\n            std::transform(\n                newEdges.cbegin(), newEdges.cend(), bfs_queue.end() - n,",
+  "            bfs_queue.resize(m+n);\n            auto dest = bfs_queue.end() - n;\n            std::transform(\n                newEdges.cbegin(), newEdges.cend(), dest,", expect="silent")
